@@ -8,6 +8,17 @@ VF_NOTE = ("Trusted: Coq kernel, extraction, harness/vf.c (page table and refere
            "The byte-level page search/bisection is abstracted to its result on the page table (validated by the tie on every run, not proved). "
            "Print Assumptions: closed under the global context.")
 CHECKS = {
+ "C14": {
+  "category": "proof",
+  "text": "Proved on Bitrate.v for ALL sequences of candidate packet sizes, block flags and floater choices: the min/max reservoir stays in [0, reservoir]; over every "
+          "contiguous run of packets the bits emitted exceed the sum of the per-block maximum targets by at most the reservoir, and fall short of the per-block minimum "
+          "targets by at most it. The literal form of the property (rate x duration) is refuted on the faithful model by an explicit witness (target rounding drift): "
+          "recorded KNOWN-FINDING. Per run the model is replayed against every real vorbis_bitrate_addblock call of managed encodes and against synthetic size "
+          "sequences pushed through the real function (choice, final size, reservoir must match exactly); window bounds evaluated on the emitted sizes.",
+  "note": "Trusted: Coq kernel, extraction, harness/c14.c. The average-bitrate floater (double arithmetic) enters the model as an oracle choice; rint() of the "
+          "per-block targets is taken from the library's state. Reservoirs below 8 bits are excluded (byte-aligned packets). Print Assumptions: closed.",
+  "technique": "Coq proof (invariant by induction over blocks, window bounds) + exact correspondence of extracted model vs lib/bitrate.c",
+ },
  "C13": {
   "category": "proof",
   "text": "Proved (Ledger.v, all call sequences): the close callback runs exactly once per source the library came to own, only in ov_clear, never after a failed "
